@@ -103,6 +103,17 @@ def main():
             if got != want:
                 return dict(reproduced=True, call='copy route %d of a lineage model (%s) with a volume rule, a death rule and a division rule; single-cell run with the same seed' % (k, how),
                             what='[rows, division code, volume trace]', observed=got, expected=want)
+    # a schnitz copied on its own (not inside a whole Lineage): the copy still knows its mother and its daughters
+    from bioscrape.types import Schnitz
+    mk = lambda k: Schnitz(np.arange(3.0) + k, np.ones((3, 2)) * k, np.ones(3) + k)
+    mo, d1, d2 = mk(0), mk(1), mk(2)
+    mo.py_set_daughters(d1, d2)
+    d1.py_set_parent(mo); d2.py_set_parent(mo)
+    for k, cp in enumerate((pickle.loads(pickle.dumps(d1)), copy.deepcopy(d1), pickle.loads(pickle.dumps([d1, d2]))[0])):
+        n += 1
+        par = cp.py_get_parent()
+        if par is None or not np.array_equal(par.py_get_time(), mo.py_get_time()):
+            return dict(reproduced=True, call='copy route %d of a daughter schnitz (alone / in a list of leaves)' % k, observed='parent of the copy: %r' % (par,), expected='a copy of the mother schnitz')
     # lineage cell states with every field away from its default (a cell that divided / died by some rule code): pickle, double pickle, deep copy
     from bioscrape.lineage import LineageVolumeCellState
     for it in range(SPEC.get('cell_rounds', 12)):
